@@ -161,13 +161,11 @@ func BinarySearch(slice []int, toFind int) int {
 // BinarySearchFunc looks for toFind in an increasing function of domain 0 ... (end-1), and returns the index at which it either is or would be were it to be inserted.
 func BinarySearchFunc(eval func(int) int, end int, toFind int) int {
 	var start int
-	for start != end {
+	for start < end {
 		mid := (start + end) / 2
-		val := eval(mid)
-		if toFind >= val {
-			start = mid
-		}
-		if toFind <= val {
+		if eval(mid) < toFind {
+			start = mid + 1
+		} else {
 			end = mid
 		}
 	}
